@@ -14,9 +14,19 @@ mkdir -p bin evidence replays
 unset LINES COLUMNS COLORTERM TCELL_TRUECOLOR TCELL_ALTSCREEN RUNEWIDTH_EASTASIAN TERM LC_ALL LC_CTYPE LC_MESSAGES LANG LANGUAGE
 export LC_ALL=C.UTF-8
 
+# VERIF_REPO=<dir> builds against another checkout of tcell (used for background runs on a
+# snapshot while /repo is being edited); registered commands never set it.
+MODFLAG=""
+if [ -n "${VERIF_REPO:-}" ]; then
+  sed "s#=> /repo#=> $VERIF_REPO#" harness/go.mod > harness/go.alt.mod
+  cp harness/go.sum harness/go.alt.sum
+  MODFLAG="-modfile=$PWD/harness/go.alt.mod"
+  export VERIF_MODFLAG="$MODFLAG"
+fi
+
 build() { # $1 = output, rest = extra flags
   local out=$1; shift
-  (cd harness && go build -tags verif "$@" -o "../bin/$out" ./cmd/vcheck) || { echo "BUILD FAILED ($out): tcell in /repo does not compile with the harness" >&2; return 1; }
+  (cd harness && go build $MODFLAG -tags verif "$@" -o "../bin/$out" ./cmd/vcheck) || { echo "BUILD FAILED ($out): tcell in /repo does not compile with the harness" >&2; return 1; }
 }
 
 case "${1:-}" in
